@@ -161,14 +161,14 @@ func Specs() map[string]*PropSpec {
 		Stubs:       []string{"c07NewEVM/c07Call/c07Create/c07Intrinsic", "c07Bank", "c07FeeMarket", "vEVMKeeper", "vFeeMarket"},
 	}
 	m["C03"] = &PropSpec{
-		ID: "C03", Pkgs: []string{"./app/ante/evm"},
-		Quick:    []Inst{{Pkg: "app/ante/evm", Fn: "VerifC03_Nonce", Params: pm("msgs", "3")}},
-		Thorough: []Inst{{Pkg: "app/ante/evm", Fn: "VerifC03_Nonce", Params: pm("msgs", "4")}},
+		ID: "C03", Pkgs: []string{"./app/ante/evm", "./app/ante/cosmos"},
+		Quick:    []Inst{{Pkg: "app/ante/evm", Fn: "VerifC03_Nonce", Params: pm("msgs", "3")}, {Pkg: "app/ante/cosmos", Fn: "VerifC03_Eip712Sequence", Params: pm(), EngineReplay: true}},
+		Thorough: []Inst{{Pkg: "app/ante/evm", Fn: "VerifC03_Nonce", Params: pm("msgs", "4")}, {Pkg: "app/ante/cosmos", Fn: "VerifC03_Eip712Sequence", Params: pm(), EngineReplay: true}},
 		Bounds: map[string]string{
 			"quick":    "Ethereum transactions of <= 3 messages by 2 senders in any interleaving (legacy and dynamic-fee), any nonces, any account sequences < 2^62; immediate replay of the accepted transaction",
 			"thorough": "<= 4 messages",
 		},
-		Outside:     []string{"signature validity (keccak-256, RLP, secp256k1 recovery, EIP-712 typed-data hashing): cannot be encoded for an SMT solver within reach", "chain-id binding of signatures", "Cosmos and EIP-712 routes' sequence checks (SDK SigVerificationDecorator / LegacyEip712SigVerificationDecorator need real signatures)"},
+		Outside:     []string{"signature validity (keccak-256, RLP, secp256k1 recovery, EIP-712 typed-data hashing): cannot be encoded for an SMT solver within reach", "that a signature verifies only for the exact signed content (inside VerifySignature / go-ethereum)", "the plain Cosmos route (SDK SigVerificationDecorator) and the non-legacy EIP-712 path"},
 		Assumptions: []string{"account keeper stub holding BaseAccounts", "sequences only grow (each accepted message increments), so rejection right after acceptance extends to every later state"},
 		Stubs:       []string{"vAK"},
 	}
@@ -209,6 +209,31 @@ func Specs() map[string]*PropSpec {
 		Outside:     []string{"equality of app hashes of two replicas over block histories (BaseApp, IAVL, all modules)", "goroutine-fed counters (app/tps_counter.go): concurrency", "fixed Begin/EndBlocker ordering and sorted module-account construction in app.go (construction-time facts)"},
 		Assumptions: []string{"Go map iteration order modelled as an arbitrary permutation chosen per range statement", "counterexamples are confirmed by concrete re-execution with the same iteration order (a native run cannot fix the order)"},
 		Stubs:       []string{"sLedger"},
+	}
+	ps := func(fn string, kv ...string) Inst { return Inst{Pkg: "precompiles/staking", Fn: fn, Params: pm(kv...), EngineReplay: true} }
+	m["C04"] = &PropSpec{
+		ID: "C04", Pkgs: []string{"./precompiles/staking"},
+		Quick:    []Inst{ps("VerifC04_Identity"), ps("VerifC04_Allowance", "steps", "3")},
+		Thorough: []Inst{ps("VerifC04_Identity"), ps("VerifC04_Allowance", "steps", "5")},
+		Bounds: map[string]string{
+			"quick":    "staking precompile delegate / undelegate for every (signer, caller in {signer, contract}, named account in 3 addresses) relationship x grant state {absent, wrong type, limited, unlimited, other message type} x amount < 2^128 x module accepts/refuses; sequences of <= 3 operations from {approve(x), approve(unlimited), increase(x), decrease(x), revoke, spend(x) by the contract} with symbolic amounts < 2^200",
+			"thorough": "sequences of <= 5 operations",
+		},
+		Outside:     []string{"distribution and ICS-20 precompiles, redelegate / cancelUnbonding / createValidator (same pattern; not yet harnessed)", "the ERC-20 precompile's approve/transferFrom (not registered in AvailablePrecompiles)", "expiry of grants (the SDK treats an expired grant as absent: contract of the grant-table stub)"},
+		Assumptions: []string{"authz keeper replaced by a grant table (Get/Save/DeleteGrant contract of the SDK keeper)", "staking message server replaced by a recorder that accepts or refuses", "event emission and ABI packing replaced by no-ops", "StakeAuthorization.Accept / NewStakeAuthorization / ValidateBasic are the SDK's own code, executed", "counterexamples confirmed by concrete re-execution in the SSA interpreter (concrete SDK keepers cannot be stubbed natively)"},
+		Stubs:       []string{"c04 grant table", "c04Srv", "c04Ledger"},
+	}
+	m["C16"] = &PropSpec{
+		ID: "C16", Pkgs: []string{"./precompiles/staking", "./precompiles/bank"},
+		Quick:    []Inst{ps("VerifC04_Identity"), {Pkg: "precompiles/bank", Fn: "VerifC16_Bank", Params: pm(), EngineReplay: true}},
+		Thorough: []Inst{ps("VerifC04_Identity"), {Pkg: "precompiles/bank", Fn: "VerifC16_Bank", Params: pm(), EngineReplay: true}},
+		Bounds: map[string]string{
+			"quick":    "staking delegate / undelegate: the message handed to the staking module is exactly the native message with the call's fields, exactly once, nothing handed over on failure (all identity / grant combinations of C04); bank precompile balances / totalSupply / supplyOf over 4 denominations with symbolic registration (2^4) and symbolic amounts",
+			"thorough": "same",
+		},
+		Outside:     []string{"the module servers themselves (identical object on both sides, their behaviour cancels)", "ABI byte encoding (go-ethereum reflection)", "distribution / ICS-20 precompiles and the staking read-only queries' output converters (not yet harnessed)"},
+		Assumptions: []string{"as C04; erc20 keeper's GetCoinAddress / GetERC20Map / GetTokenPair replaced by a registry table; bank keeper stub iterates in denomination order"},
+		Stubs:       []string{"c16Bank", "c16 registry"},
 	}
 	return m
 }
